@@ -3,6 +3,8 @@ package admin
 import (
 	"encoding/json"
 	"net/http"
+
+	"github.com/valinurovam/garagemq/server"
 )
 
 func JSONResponse(w http.ResponseWriter, data interface{}, code int) (int, error) {
@@ -17,4 +19,12 @@ func JSONResponse(w http.ResponseWriter, data interface{}, code int) (int, error
 	}
 
 	return w.Write(body)
+}
+
+// vhostName is the virtual host a connection is bound to; a connection that is still in the handshake has none
+func vhostName(conn *server.Connection) string {
+	if vhost := conn.GetVirtualHost(); vhost != nil {
+		return vhost.GetName()
+	}
+	return ""
 }
